@@ -62,13 +62,15 @@ def translate_lifecycle():
             else:
                 yield st
 
+    # statements are classified by the registry they touch (so `del d[k]` instead of `d.pop(k, None)` is the same
+    # action); statements touching none of the five registries are ignored; the behaviour itself is what T2 checks
+    def mentions(st, name):
+        return any(isinstance(n, ast.Attribute) and n.attr == name and _src(n.value) == "cls" for n in ast.walk(st))
+
     for st in flat(tr.finalbody):
-        if isinstance(st, ast.Assign) and _src(st) == "cancelled = None":
-            continue
-        if isinstance(st, ast.If) and _src(st.test) == "cancelled is not None" and len(st.body) == 1 and isinstance(st.body[0], ast.Raise):
-            continue
-        if isinstance(st, ast.If) and _src(st.test) == "task in cls.task2cb":
-            loop = one([n for n in st.body if isinstance(n, ast.For)], "for loop over the callbacks")
+        loops = [n for n in ast.walk(st) if isinstance(n, ast.For) and mentions(n.iter, "task2cb")]
+        if loops:
+            loop = one(loops, "for loop over the callbacks")
             it = _src(loop.iter)
             if it == "list(cls.task2cb[task]['cb'].items())":
                 snapshot = True
@@ -83,20 +85,21 @@ def translate_lifecycle():
             if len(hs) != 1 or _src(hs[0].type) != "Exception":
                 raise TranslateError("run_coro: callback loop handler is not `except Exception`")
             breaks = bool(walk_find(hs[0], lambda n: isinstance(n, ast.Break)))
-            order.append(1)
-        elif isinstance(st, ast.If) and _src(st.test) == "task in cls.unique_task2name":
-            srcs = [_src(n) for n in ast.walk(st) if isinstance(n, ast.Delete)]
-            if sorted(srcs) != ["del cls.unique_name2task[name]", "del cls.unique_task2name[task]"]:
-                raise TranslateError("run_coro: unexpected unique-name release " + repr(srcs))
-            order.append(2)
-        elif _is_call_stmt(st, "cls.task2context.pop(task, None)"):
-            order.append(3)
-        elif _is_call_stmt(st, "cls.task2cb.pop(task, None)"):
-            order.append(4)
-        elif _is_call_stmt(st, "cls.our_tasks.discard(task)"):
-            order.append(5)
+            code = 1
+        elif mentions(st, "unique_task2name") or mentions(st, "unique_name2task"):
+            if not (mentions(st, "unique_task2name") and mentions(st, "unique_name2task")):
+                raise TranslateError("run_coro: unique-name release touches only one of the two maps")
+            code = 2
+        elif mentions(st, "task2context"):
+            code = 3
+        elif mentions(st, "task2cb"):
+            code = 4
+        elif mentions(st, "our_tasks"):
+            code = 5
         else:
-            raise TranslateError("run_coro: unexpected statement in finally: " + _src(st)[:80])
+            continue
+        if not order or order[-1] != code:
+            order.append(code)
     out["lc_cb_loop_snapshot"] = snapshot
     out["lc_cb_loop_catches_cancel"] = catches_cancel
     out["lc_cleanup_protected"] = protected
@@ -184,6 +187,9 @@ KINDS = {"ev": "KTrig", "st": "KTrig", "svc": "KSvc", "create": "KCreate"}
 def _gen_base(rng):
     """one task graph without faults; -> (case, points, spare_bits) or None if it needs too many timers"""
     n = rng.choice([1, 2, 2, 3, 3, 3, 4, 4, 4])
+    # 60 %: every task starts with a sleep and a wait is followed by a sleep (few same-instant races); 40 %: no such
+    # restriction - several tasks act within one virtual instant, in asyncio's ready-queue order
+    relaxed = rng.random() < 0.4
     kinds = [rng.choice(["ev", "st", "svc"])]
     for _ in range(1, n):
         kinds.append(rng.choice(["ev", "st", "svc", "create", "create"]))
@@ -199,12 +205,12 @@ def _gen_base(rng):
     adds_on = [0] * n
     tasks = []
     for i in range(n):
-        steps = [["sleep", 0]]
+        steps = [] if relaxed else [["sleep", 0]]
         length = rng.choice([1, 2, 3, 3, 4, 4, 5, 6])
         after_wait = False
         while len(steps) < length + 1:
             r = rng.random()
-            if after_wait:
+            if after_wait and not relaxed:
                 steps.append(["sleep", 0])
                 after_wait = False
                 continue
@@ -252,10 +258,11 @@ def _gen_base(rng):
             if s[0] in ("raise", "ret", "cancelself"):
                 stop = k
                 break
-        pos = 1 if rng.random() < 0.6 else rng.randint(1, stop)
+        lo = min(0 if relaxed else 1, stop)
+        pos = min(1, stop) if rng.random() < 0.6 else rng.randint(lo, stop)
         while pos < len(st) and pos > 0 and st[pos - 1][0] == "wait":
             pos -= 1
-        st.insert(max(pos, 1), ["create", c])
+        st.insert(max(pos, lo), ["create", c])
     # allocate distinct power-of-two durations
     need = sum(1 for t in tasks for s in t["steps"] if s[0] == "sleep") + sum(1 for cb in cbs if cb["sleep"]) + sum(
         1 for t in tasks if t["kind"] != "create")
@@ -414,7 +421,7 @@ class GraphStream(Stream):
     rule = ("task graphs of 1-4 tasks started by @event_trigger / @state_trigger / @service / task.create, each a straight-line "
             "program of sleep / add_done_callback / remove_done_callback / wait / cancel(other|self|no-arg) / task.unique / "
             "raise / return steps over 1-4 callback functions (some suspend, some raise), every duration a distinct power of "
-            "two so that all timers fall on distinct virtual instants (= one schedule per graph); per graph: the graph itself "
+            "two so that all timers fall on distinct virtual instants (= one schedule per graph; in 40 % of the graphs tasks may also act right after being created / right after a wait, i.e. several tasks act inside one instant in ready-queue order); per graph: the graph itself "
             "+ EVERY suspension point (sleep, wait, suspended done-callback) once as a cancellation point (the real "
             "user_task_cancel is invoked at a random instant inside the suspension, 20 % with a second fault) and once as a "
             "raise point; 5 fixed graphs x 2 subsystems; legacy and default subsystem chosen per graph; the script reports "
@@ -430,7 +437,7 @@ class GraphStream(Stream):
     coqc_timeout = 600
 
     def budget(self, tier):
-        return 1400 if tier == "quick" else 14000
+        return 1100 if tier == "quick" else 12000
 
     def prelude(self, ctx, findings, witness_terms):
         return cfg_prelude(SWITCHES, findings, witness_terms, "lcase_spec_ok")
